@@ -126,7 +126,7 @@ func (e *evaluator) call(stage int, api, side string, in []byte, f func()) bool 
 func (e *evaluator) evalBytes(x []byte, mut string) (refKind string) {
 	c := e.c
 	e.cnt("bytes", 1)
-	e.cnt("mut."+mut, 1)
+	e.counts["all.mutation."+mut]++
 
 	// --- Decode vs DeserializeRaw
 	ro, gobj := c.New(), c.New()
@@ -153,7 +153,6 @@ func (e *evaluator) evalBytes(x []byte, mut string) (refKind string) {
 			if !reflect.DeepEqual(ro, gobj) {
 				e.report("decode-value-mismatch", at, x, map[string]string{"ref_value": fmt.Sprintf("%+v", ro), "gen_value": fmt.Sprintf("%+v", gobj)})
 			}
-			e.cnt("decode_agree_ok", 1)
 		}
 	}
 
@@ -265,8 +264,6 @@ func (e *evaluator) evalValue(obj interface{}, desc func() string) (ref []byte, 
 		}
 		if refMax {
 			e.cnt("encode_maxlen_rejected", 1)
-		} else {
-			e.cnt("encode_ok", 1)
 		}
 	}
 
